@@ -321,18 +321,22 @@ func (w *world) cellCalls(chain []winSpec) {
 		}
 	}
 	// --- SetCell with a wide cell (explicit and auto-measured width) at every coordinate, one at a time
-	wides := []vaxis.Cell{{Character: vaxis.Character{Grapheme: "世", Width: 2}}, {Character: vaxis.Character{Grapheme: "世", Width: 0}}}
+	// the third one is four columns wide on this terminal (an emoji with a skin-tone modifier, measured rune by
+	// rune): "wide" does not mean two columns
+	wides := []vaxis.Cell{{Character: vaxis.Character{Grapheme: "世", Width: 2}}, {Character: vaxis.Character{Grapheme: "\U0001F44D\U0001F3FD", Width: 4}}, {Character: vaxis.Character{Grapheme: "世", Width: 0}}}
 	if !r.Thorough() && len(chain) > 1 {
-		wides = wides[:1]
+		wides = wides[:2]
 	}
 	for _, wc := range wides {
 		for rr := 0; rr <= 1; rr++ {
 			for cc := cMin; cc <= cMax; cc++ {
 				w.resetScreen()
 				win, ox, oy, clip, _ = w.build(chain)
+				ww := wc.Width
 				if wc.Width == 0 {
 					// a glyph this Vaxis has not met before: its width is not in any cache yet
 					wc.Grapheme = freshWide()
+					ww = 2
 				}
 				win.SetCell(cc, rr, wc)
 				w.s.Vx.Render()
@@ -355,13 +359,13 @@ func (w *world) cellCalls(chain []winSpec) {
 							bad("SetCell-wide", "escaped", fmt.Sprintf("SetCell(%d,%d,wide/%d) changed screen cell (%d,%d) outside the clip rectangle %v", cc, rr, wc.Width, x, y, clip))
 							return
 						}
-						if c.Width == 2 && (x != ox+cc || y != oy+rr) {
-							bad("SetCell-wide", "misplaced", fmt.Sprintf("SetCell(%d,%d,wide) landed at (%d,%d)", cc, rr, x, y))
+						if c.Width == 2 && (y != oy+rr || x < ox+cc || x >= ox+cc+ww || (x-ox-cc)%2 != 0) {
+							bad("SetCell-wide", "misplaced", fmt.Sprintf("SetCell(%d,%d,wide/%d) landed at (%d,%d)", cc, rr, ww, x, y))
 							return
 						}
 					}
 				}
-				if cc >= 0 && rr >= 0 && cc+2 <= win.Width && rr < win.Height && clip.has(ox+cc, oy+rr) && clip.has(ox+cc+1, oy+rr) && g[oy+rr][ox+cc].Text != wc.Grapheme {
+				if cc >= 0 && rr >= 0 && cc+ww <= win.Width && rr < win.Height && clip.has(ox+cc, oy+rr) && clip.has(ox+cc+ww-1, oy+rr) && !(g[oy+rr][ox+cc].Text != "" && strings.HasPrefix(wc.Grapheme, g[oy+rr][ox+cc].Text)) {
 					bad("SetCell-wide", "dropped", fmt.Sprintf("SetCell(%d,%d,wide) fits but was not drawn", cc, rr))
 					return
 				}
